@@ -25,7 +25,7 @@ from zcsim import layout
 from zcsim import ops
 from zcsim import scenarios
 from zcsim import textfaults as TF
-from zcsim.world import SimWorld
+from zcsim.world import SimWorld, pkg_file_key
 
 ID = "C19"
 LEVEL = "fault_enumeration"
@@ -67,6 +67,7 @@ REAL_STUB = {
              "datatype callbacks zcsim.simdt.*"],
 }
 
+TWIN_TOP = "file:///sim/twin/probe.conf"
 WRAPPER = "%s.zz-wrapper"       # URL of a resource that includes the top
 
 
@@ -432,7 +433,7 @@ def execute(plan):
             out["waste"] += 1
             return out
 
-        def violation(clause, detail, pt, label, pt2=None):
+        def violation(clause, detail, pt, label, pt2=None, what=None):
             focused = dict(plan)
             focused["only"] = pt
             focused["only2"] = pt2
@@ -441,11 +442,37 @@ def execute(plan):
             full.pop("only2", None)
             out["violations"].append({
                 "sig": "C19|%s|%s" % (clause, plan["kind"]),
-                "key": {"clause": clause, "scenario": plan["kind"],
-                        "fault": label},
+                "key": dict({"clause": clause, "scenario": plan["kind"],
+                             "fault": label},
+                            **({"what": what} if what else {})),
                 "detail": "%s; failure point %r; %s scenario entered by %s"
                           % (detail, pt, plan["kind"], plan["entry"]),
                 "plan": focused, "plan_full": full})
+
+        # twin probe (see the loop): component package 0 has a type pt0 that
+        # implements the application's abstract type
+        twin_ok = (plan["kind"] == "config" and not plan.get("reuse_loader")
+                   and not plan.get("override")
+                   and 'name="pt0"' in str(store0.get(
+                       pkg_file_key("zcsim_p0"), ""))
+                   and 'type="abx"' in plan.get("schema_xml", ""))
+
+        def twin_probe(schema, name):
+            w.packages["zcsim_ptw"] = {"is_package": True}
+            st = dict(store0)
+            st[pkg_file_key("zcsim_ptw")] = (
+                '<component>\n  <sectiontype name="pt0"/>\n</component>\n')
+            st[TWIN_TOP] = "%import zcsim_ptw\n<pt0/>\n"
+            w.store = st
+            w.begin_op(name)
+            o_ = ops.config_outcome(
+                lambda: ZConfig.loadConfig(schema, TWIN_TOP))
+            w.end_op("ok" if o_["ok"] else o_["cls"])
+            try:
+                sub = sorted(schema.gettype("abx").getsubtypenames())
+            except Exception:
+                sub = None
+            return o_, sub
 
         # probe: the same text WITHOUT its %import lines (it uses section
         # types it no longer imports).  What it gives on the untouched schema
@@ -530,6 +557,38 @@ def execute(plan):
             for clause, detail in problems:
                 violation(clause, "%s (load ended with %s)"
                           % (detail, ops.brief(o)), pt, label, pt2)
+            if twin_ok and not o["ok"] \
+                    and (ipt + plan.get("rot", 0)) % 3 == 1:
+                # the same failed load on a schema object that has served no
+                # load yet, with a text before and after it that imports the
+                # TWIN of component package 0 (a type of the same name that
+                # implements nothing) and uses it in the abstract slot
+                ctx2 = Ctx(plan, w)
+                if ctx2.setup():
+                    tw0, sub0 = twin_probe(ctx2.schema, "twin-probe-before")
+                    of_, _p, _r = ctx2.run(store, faults, "faulty-fresh")
+                    tw1, sub1 = twin_probe(ctx2.schema, "twin-probe-after")
+                    out["evaluations"] += 3
+                    out["probes"]["twin-import-probe"] = out["probes"].get(
+                        "twin-import-probe", 0) + 1
+                    if not of_["ok"] and not same(tw0, tw1):
+                        what = None
+                        if not tw0["ok"] and tw0.get("lineno") == 2 \
+                                and sub0 is not None and sub1 is not None \
+                                and "pt0" in sub1 and "pt0" not in sub0:
+                            # the failed load left the NAME pt0 among the
+                            # implementers of the application's abstract
+                            # type: the twin's pt0 gets past the slot
+                            # (KF-5; same root as KF-1..3)
+                            what = "stale-implementer-name-admits-twin"
+                        violation("rerun-differs",
+                                  "a text that %%import-s a package whose "
+                                  "type pt0 implements nothing and writes "
+                                  "<pt0/> gave %s on the untouched schema "
+                                  "object and gives %s after the failed "
+                                  "load (implementers of abx: %r -> %r)"
+                                  % (ops.brief(tw0), ops.brief(tw1), sub0,
+                                     sub1), pt, label, pt2, what)
             if probe_store is not None:
                 op_, _pp, _pr = ctx.run(probe_store, [], "probe")
                 out["evaluations"] += 1
